@@ -24,7 +24,7 @@ func C03(c *core.Ctx) {
 	res := runE2EShards(c, "e2e-rand", nshards, "TraceE2E_C03.cfg", func(i int) interface{} {
 		dir, trace := shardDir(c, i)
 		return E2EParams{Dir: dir, Trace: trace, AgentBin: filepath.Join(c.BinDir, "verif-agent"), N4Addr: n4For(i),
-			Seed: c.Seed*1000 + int64(i), Scenarios: scenarios, Steps: steps, Rejects: true, Kill: true, Alloc: 1, EndMarker: 1, PoolLens: []int{24, 28}}
+			Seed: c.Seed*1000 + int64(i), Scenarios: scenarios, Steps: steps, Rejects: true, Kill: true, Alloc: 1, EndMarker: 1, PoolLens: []int{24, 28}, Notify: true}
 	})
 	judgeE2E(c, res, map[string]bool{"InEnvelope": true, "EnvDistinctMatchKeys": true})
 }
